@@ -22,7 +22,7 @@ def gen_world(tape, tier):
 
     # "roman": a genome without integer-named chromosomes (yeast / C. elegans style): no name matches
     # the autosome pattern, so autosomes() and friends take their "nothing to select" paths
-    style = tape.weighted([("chr", 3), ("plain", 3), ("roman", 1)], "w.style")
+    style = tape.weighted([("chr", 3), ("plain", 3), ("roman", 2)], "w.style")
     n_auto = tape.between(2, 4, "w.nauto")
     with_x = tape.chance(2, 3, "w.X")
     with_y = tape.chance(1, 3, "w.Y")
@@ -313,6 +313,11 @@ def gen_world(tape, tier):
         "cnr_chr1": CNA(cnr[cnr["chromosome"] == names[0]].reset_index(drop=True), dict(meta)),
         # an amplicon / whole-genome style table: no off-target bins at all
         "cnr_ontarget": CNA(cnr[cnr["gene"] != "Antitarget"].reset_index(drop=True), dict(meta)),
+        # what a filtered / concatenated table looks like: target bins first, then the off-target
+        # ones, row labels with gaps
+        "cnr_relabelled": CNA(pd.concat([cnr[cnr["gene"] != "Antitarget"], cnr[cnr["gene"] == "Antitarget"]]
+                                        ).pipe(lambda d: d.set_axis(d.index * 2 + 11)), dict(meta)),
+        "cns_relabelled": CNA(cns.set_axis(cns.index * 3 + 2), dict(meta)),
         "cns": CNA(cns, dict(meta)),
         "cns_stats": CNA(cns_stats, dict(meta)),
     }
